@@ -129,22 +129,7 @@ def run(check: Check):
       check.ob('R-DIV', fi, txt(s.node), ok, f'denominator {txt(s.denom)} is {s.cls} ({s.why}); guard: {s.guard}',
                node=s.node)
   check.floor('R-DIV', 'division sites', n_div, 3)
-  for q in ('tree_inverse_weight', '_tree_inverse_weight_eq'):
-    fi = repo.func(TU, q)
-    ff = FuncFlow.of(repo, fi)
-    for _, rv in ff.returns():
-      ok = isinstance(rv, ast.Call) and wmean.repo_fn(ff, rv) in wmean.WEIGHT and len(rv.args) == 2 and ff.param_of(
-          rv.args[0]) == fi.positional_params[0]
-      inv = rv.args[1] if ok else None
-      ok2 = False
-      if inv is not None:
-        for x in ff.expand(inv):
-          if isinstance(x, ast.IfExp) and isinstance(x.orelse, ast.Constant) and x.orelse.value == 0 and isinstance(
-              x.body, ast.BinOp) and isinstance(x.body.op, ast.Div) and ff.param_of(x.body.right) == fi.positional_params[1] and isinstance(
-                  x.body.left, ast.Constant) and x.body.left.value == 1:
-            ok2 = True
-      check.ob('R-DIV.inverse', fi, txt(rv) if rv is not None else 'return', ok and ok2,
-               'result must be tree_weight(pytree, 1/weight if weight > 0 else 0): all zeros for zero total weight')
+  inverse_weight_rule(check)
   # ---- clip
   _clip(check, repo.func(TU, 'tree_clip_by_global_norm'))
   _norms(check)
@@ -165,6 +150,27 @@ def run(check: Check):
     if not bad and fi.scope.parent.kind == 'module' and not fi.name.startswith('_'):
       check.ob('R-PURE', fi, f'{fi.qualname}({", ".join(fi.params)})', True, 'no write through parameters',
                nontrivial=False)
+
+
+def inverse_weight_rule(check: Check):
+  """The normaliser of every weighted mean: tree_weight(tree, 1/w if w > 0 else 0) (shared with C11)."""
+  repo = check.repo
+  for q in ('tree_inverse_weight', '_tree_inverse_weight_eq'):
+    fi = repo.func(TU, q)
+    ff = FuncFlow.of(repo, fi)
+    for _, rv in ff.returns():
+      ok = isinstance(rv, ast.Call) and wmean.repo_fn(ff, rv) in wmean.WEIGHT and len(rv.args) == 2 and ff.param_of(
+          rv.args[0]) == fi.positional_params[0]
+      inv = rv.args[1] if ok else None
+      ok2 = False
+      if inv is not None:
+        for x in ff.expand(inv):
+          if isinstance(x, ast.IfExp) and isinstance(x.orelse, ast.Constant) and x.orelse.value == 0 and isinstance(
+              x.body, ast.BinOp) and isinstance(x.body.op, ast.Div) and ff.param_of(x.body.right) == fi.positional_params[1] and isinstance(
+                  x.body.left, ast.Constant) and x.body.left.value == 1:
+            ok2 = True
+      check.ob('R-DIV.inverse', fi, txt(rv) if rv is not None else 'return', ok and ok2,
+               'result must be tree_weight(pytree, 1/weight if weight > 0 else 0): all zeros for zero total weight')
 
 
 def _iter_of_param(ff: FuncFlow, e: ast.AST, p: str) -> bool:
